@@ -33,7 +33,7 @@ pub static DEF: PropDef = PropDef {
 	real: LIB_REAL,
 	stub: LIB_STUB,
 	assumptions: &["the `verif` hook returns detect_format's own answer and exposes input::Handle without adding logic", "error texts ARE compared between the detected run and the explicit run of the detected format (the statement requires identical outcome)"],
-	expected_probes: &["kind.program", "kind.lib", "program.eintr.fired", "program.flipped_to_slice", "program.reborrow_after_partial_read", "program.into_cow", "program.into_input.reader", "program.into_input.slice", "lib.detected.json", "lib.detected.msgpack", "lib.detected.yaml", "lib.detected.toml", "lib.undetected", "lib.agreement_checked", "lib.fault.fired", "lib.msgpack_marker_first", "lib.u0700_first", "lib.truncated", "lib.near_2mib_toml"],
+	expected_probes: &["kind.program", "kind.lib", "program.eintr.fired", "program.flipped_to_slice", "program.reborrow_after_partial_read", "program.into_cow", "program.into_input.reader", "program.into_input.slice", "lib.detected.json", "lib.detected.msgpack", "lib.detected.yaml", "lib.detected.toml", "lib.undetected", "lib.agreement_checked", "lib.fault.fired", "lib.msgpack_marker_first", "lib.u0700_first", "lib.truncated", "lib.near_2mib_toml", "lib.boundary_utf8"],
 	needs_bins: false,
 	watchdog_s: 30,
 };
@@ -164,6 +164,10 @@ fn gen(seed: u64, idx: u64, t: Tier) -> J {
 		}
 		s.push_str(tail);
 		s.into_bytes()
+	} else if idx % 11 == 7 {
+		family = "boundary_utf8";
+		let fm = *r.pick(&[Fmt::Json, Fmt::Yaml, Fmt::Toml, Fmt::Toml]);
+		gen::boundary_text(&mut r, fm)
 	} else if fam < 25 {
 		corpus_stream(&mut r, 4).1.bytes
 	} else if fam < 45 {
@@ -264,6 +268,7 @@ fn eval_lib(case: &J) -> Eval {
 		"u0700_first" => ev.count("lib.u0700_first", 1),
 		"truncated" => ev.count("lib.truncated", 1),
 		"near_2mib" => ev.count("lib.near_2mib_toml", 1),
+		"boundary_utf8" => ev.count("lib.boundary_utf8", 1),
 		_ => {}
 	}
 	if let Some(f) = &c0.rfault {
@@ -343,7 +348,7 @@ fn eval_lib(case: &J) -> Eval {
 		ev.count("lib.agreement_checked", 1);
 		let (ds, _, _) = detect_with(&c0.bytes, false, &Sched::whole(), None);
 		let mut answers = vec![("slice".to_owned(), ds)];
-		let small = if c0.bytes.len() > 100_000 { Sched::bytes(65_536) } else { Sched::bytes(1) };
+		let small = if c0.bytes.len() > 100_000 { Sched::bytes(65_536) } else if c0.bytes.len() > 6000 { Sched::bytes(8192) } else { Sched::bytes(1) };
 		for (name, s) in [("reader(drawn)", c0.sched.clone()), ("reader(1-byte)", small), ("reader(whole)", Sched::whole())] {
 			let (d, _, _) = detect_with(&c0.bytes, true, &s, None);
 			answers.push((name.to_owned(), d));
